@@ -42,6 +42,13 @@ var lockCluster = map[string]string{
 	"leveldb/table.Reader.mu":  "cache+table layer",
 }
 
+// sameInstanceExceptions: "lock@function" -> why a re-acquisition that crosses no callback is still
+// on a DIFFERENT instance.
+var sameInstanceExceptions = map[string]string{
+	"leveldb/cache.mBucket.mu@(*leveldb/cache.mHead).initBucket": "a bucket of the new table locks itself, then initialises from the bucket(s) of the PREDECESSOR table (p.initBucket): always new → old, the predecessor chain is finite and never points back",
+	"leveldb/table.Reader.mu@(*leveldb/table.Reader).Get":        "a genuine recursive read lock (Get → find on the same Reader; Release is the writer), but of the standalone table API only: no DB operation reaches Reader.Get (tOps uses Find / FindKey / OffsetOf / NewIterator) — checked: the function has no caller in the module; outside the operations C09 quantifies over",
+}
+
 func baseLock(id string) string {
 	id = strings.TrimSuffix(id, "/R")
 	if c, ok := lockCluster[id]; ok {
@@ -68,6 +75,13 @@ type lockCtx struct {
 	outEdges   map[*ssa.Function][]*callgraph.Edge
 	nAmbiguous map[ssa.Instruction]bool
 	mayAcq     map[*ssa.Function]map[string]bool
+	// mayAcqSame: exact lock names (not collapsed; /R kept) reachable WITHOUT passing through a
+	// callback: calls of function values (setFunc, delFunc, …) and dynamic dispatch outside the
+	// reviewed interfaces (finalisers: Value.Release) are not followed. Within one layer object a
+	// re-acquisition found this way is on the same instance: callbacks are the only bridges between
+	// the instances of the cache/table layer.
+	mayAcqSame map[*ssa.Function]map[string]*ssa.Function // lock -> callee through which (nil = direct)
+	isCallback func(e *callgraph.Edge) bool
 }
 
 func buildLockCtx(p *Prog) *lockCtx {
@@ -170,7 +184,46 @@ func buildLockCtx(p *Prog) *lockCtx {
 			}
 		}
 	}
-	return &lockCtx{fns: fns, inScope: inScope, follow: followEdge, calleesOf: calleesOf, outEdges: outEdges, nAmbiguous: nAmbiguous, mayAcq: mayAcq}
+	isCallback := func(e *callgraph.Edge) bool {
+		cc := e.Site.Common()
+		if cc.IsInvoke() {
+			switch namedOf(cc.Value.Type()) {
+			case "leveldb/storage.Storage", "leveldb/storage.Reader", "leveldb/storage.Writer", "leveldb/storage.Locker", "leveldb/cache.Cacher":
+				return false
+			}
+			return true
+		}
+		return cc.StaticCallee() == nil // call of a function value
+	}
+	mayAcqSame := map[*ssa.Function]map[string]*ssa.Function{}
+	for _, fn := range fns {
+		mayAcqSame[fn] = map[string]*ssa.Function{}
+		instrs(fn, func(_ *ssa.BasicBlock, _ int, in ssa.Instruction) {
+			if _, isDefer := in.(*ssa.Defer); isDefer {
+				return
+			}
+			if id, d, ok := mutexOp(in); ok && d > 0 {
+				mayAcqSame[fn][id] = nil
+			}
+		})
+	}
+	for changed := true; changed; {
+		changed = false
+		for _, fn := range fns {
+			for _, e := range outEdges[fn] {
+				if isCallback(e) {
+					continue
+				}
+				for l := range mayAcqSame[e.Callee.Func] {
+					if _, ok := mayAcqSame[fn][l]; !ok {
+						mayAcqSame[fn][l] = e.Callee.Func
+						changed = true
+					}
+				}
+			}
+		}
+	}
+	return &lockCtx{fns: fns, inScope: inScope, follow: followEdge, calleesOf: calleesOf, outEdges: outEdges, nAmbiguous: nAmbiguous, mayAcq: mayAcq, mayAcqSame: mayAcqSame, isCallback: isCallback}
 }
 
 func ruleLockOrder(p *Prog, r *Report, rule string) {
@@ -249,6 +302,8 @@ func ruleLockOrder(p *Prog, r *Report, rule string) {
 	}
 	nSites := 0
 	analysed := 0
+	sameInst := map[string]string{}
+	sameInstPos := map[string]string{}
 	for _, fn := range fns {
 		if !hasMutexOps(fn) && !callsLockSummarised(sp, fn) {
 			continue
@@ -306,6 +361,40 @@ func ruleLockOrder(p *Prog, r *Report, rule string) {
 					nSites++
 					for h := range held {
 						addEdge(h, l, lockEdgeWitness{fn: fnName(fn), pos: p.Pos(in.Pos()), via: chain(c, l)})
+					}
+				}
+			}
+			// same-instance re-acquisition inside the collapsed layer (see lockCtx.mayAcqSame)
+			if n := cg.Nodes[fn]; n != nil {
+				for _, e := range n.Out {
+					if e.Site != in || !followEdge(e) || lc.isCallback(e) {
+						continue
+					}
+					for l := range lc.mayAcqSame[e.Callee.Func] {
+						lb := strings.TrimSuffix(l, "/R")
+						if _, clustered := lockCluster[lb]; !clustered {
+							continue
+						}
+						for h := range held {
+							if strings.TrimSuffix(h, "/R") != lb {
+								continue
+							}
+							key := lb + "@" + fnName(fn)
+							if _, ok := sameInst[key]; !ok {
+								// reconstruct the chain
+								var parts []string
+								for f, i := e.Callee.Func, 0; f != nil && i < 12; i++ {
+									parts = append(parts, fnName(f))
+									nx, ok := lc.mayAcqSame[f][l]
+									if !ok || nx == nil {
+										break
+									}
+									f = nx
+								}
+								sameInst[key] = fmt.Sprintf("%s holds %s at %s and re-acquires %s through %s", fnName(fn), h, p.Pos(in.Pos()), l, strings.Join(parts, " → "))
+								sameInstPos[key] = p.Pos(in.Pos())
+							}
+						}
 					}
 				}
 			}
@@ -427,6 +516,40 @@ func ruleLockOrder(p *Prog, r *Report, rule string) {
 			}
 		}
 		r.Fail(strings.Join(comp, ","), "lock-order-cycle", "the lock-order graph is acyclic", "locks taken in opposite orders: "+strings.Join(det, " | "), edges[comp[0]][adj[comp[0]][0]].pos, det)
+	}
+	var sk []string
+	for k := range sameInst {
+		sk = append(sk, k)
+	}
+	sort.Strings(sk)
+	usedSame := map[string]bool{}
+	for _, k := range sk {
+		if why, ok := sameInstanceExceptions[k]; ok {
+			usedSame[k] = true
+			if k == "leveldb/table.Reader.mu@(*leveldb/table.Reader).Get" {
+				// the exception holds only while nothing in the module calls it
+				callers := 0
+				for _, fn := range fns {
+					if fnName(fn) == "(*leveldb/table.Reader).Get" {
+						if n := cg.Nodes[fn]; n != nil {
+							callers = len(n.In)
+						}
+					}
+				}
+				if callers > 0 {
+					r.Fail(k, "reacquired-same-instance", "table.Reader.Get (recursive read lock) is not reachable from DB operations", fmt.Sprintf("%d callers in the module now reach it: %s", callers, sameInst[k]), sameInstPos[k], nil)
+					continue
+				}
+			}
+			r.OK(k, "reacquired-same-layer:reviewed", "reviewed: "+why)
+			continue
+		}
+		r.Fail(k, "reacquired-same-instance", "inside the cache/table layer no lock is re-acquired on a path that stays within one object (no callback crossed): sync.RWMutex read locks are not re-entrant — with a writer waiting in between, the second RLock and the writer block each other for ever", sameInst[k], sameInstPos[k], nil)
+	}
+	for k := range sameInstanceExceptions {
+		if !usedSame[k] {
+			r.Fail(k, "stale-exception", "every reviewed same-layer exception still matches", "no longer found: remove the row", "", nil)
+		}
 	}
 	r.Site(analysed)
 	r.Check(analysed >= 60 && nEdges >= 8, "module", "lock-order-graph", "the functions using mutexes were analysed and the order graph is non-trivial", fmt.Sprintf("%d functions, %d order edges, %d nodes", analysed, nEdges, len(nodes)), "")
